@@ -1596,6 +1596,449 @@ fn gen_c08(r: &mut Rng, seed: u64) -> Scenario {
 
 fn sc_force_file_fallback(_tags: &mut Vec<String>) {}
 
+const HANDLED_SIGNALS: [i32; 8] = [10, 12, 14, 1, 34, 35, 40, 64];
+
+fn signal_trigger(r: &mut Rng, n: usize) -> (Trigger, &'static str) {
+    let n = n as u64;
+    match r.below(11) {
+        0 => (Trigger { kind: CallKind::Kill, nth: 0, path: None }, "before-stop"),
+        1 => (Trigger { kind: CallKind::Read, nth: r.below(4) as u32, path: Some("/stat".into()) }, "while-stopping"),
+        2 => (Trigger { kind: CallKind::Readdir, nth: r.below(n + 2) as u32, path: Some("/task".into()) }, "enumeration"),
+        3 => (Trigger { kind: CallKind::PtraceAttach, nth: r.below(n) as u32, path: None }, "at-attach"),
+        4 => (Trigger { kind: CallKind::Waitpid, nth: r.below(n + 1) as u32, path: None }, "between-attach-and-wait"),
+        5 => (Trigger { kind: CallKind::PtraceGetregset, nth: r.below(2 * n) as u32, path: None }, "while-suspended"),
+        6 => (Trigger { kind: CallKind::Vmreadv, nth: r.below(20) as u32, path: None }, "while-capturing"),
+        7 => (Trigger { kind: CallKind::DestWrite, nth: r.below(30) as u32, path: None }, "while-writing"),
+        8 => (Trigger { kind: CallKind::PtraceDetach, nth: r.below(n) as u32, path: None }, "between-detaches"),
+        9 => (Trigger { kind: CallKind::Kill, nth: 1, path: None }, "before-sigcont"),
+        _ => (Trigger { kind: CallKind::PtraceCont, nth: 0, path: None }, "at-reinjection"),
+    }
+}
+
+fn gen_c03(r: &mut Rng, seed: u64) -> Scenario {
+    let n = match r.below(8) {
+        0 => 1,
+        1..=5 => r.range(2, 5) as usize,
+        _ => r.range(6, 16) as usize,
+    };
+    let mut cfg = plain_cfg(n, 1);
+    cfg.stack_pages_max = 3;
+    let mut b = build_world(r, &cfg);
+    let mut tags = vec![format!("n{}", if n == 1 { "1" } else if n <= 5 { "2-5" } else { "6-16" })];
+    let mut opts = Opts { blamed: tid_of(r.below(n as u64) as usize), ..Default::default() };
+    // a couple of busy threads
+    if r.coin() {
+        let words = b.add_anon(0x1000, "rw-p", r.next(), 1);
+        for s in 0..r.range(1, 2) {
+            let ti = r.below(n as u64) as usize;
+            let tid = tid_of(ti);
+            let (ss, sl) = stack_of(&b, tid);
+            let t = &mut b.world.threads[ti];
+            if t.program == Program::Parked {
+                t.program = Program::Spinner { stack_slot: ss + sl - 64, app_word: words + s * 64 };
+            }
+        }
+        tags.push("busy".into());
+    }
+    if r.chance(1, 8) && n > 1 {
+        let ti = r.range(1, n as u64 - 1) as usize;
+        b.world.threads[ti].foreign_tracer = true;
+        tags.push("foreign-tracer".into());
+    }
+    let mut faults = Vec::new();
+    match r.below(8) {
+        0 => {
+            opts.failspots |= 1;
+            tags.push("stop-failspot".into());
+        }
+        1 => {
+            faults.push(FaultRule { trig: Trigger { kind: CallKind::Kill, nth: 0, path: None }, effect: Effect::Errno(1), times: 1, exotic: false });
+            tags.push("stop-eperm".into());
+        }
+        2 => {
+            for t in b.world.threads.iter_mut() {
+                t.stop_latency_ns = 200_000_000 + r.below(200_000_000);
+            }
+            opts.stop_timeout_ms = Some(*r.pick(&[1u64, 5]));
+            tags.push("stop-timeout".into());
+        }
+        3 => {
+            for t in b.world.threads.iter_mut() {
+                t.stop_latency_ns = r.below(2_000_000);
+            }
+            tags.push("stop-staggered".into());
+        }
+        _ => {}
+    }
+    let stop_fails = tags.iter().any(|t| t == "stop-failspot" || t == "stop-eperm" || t == "stop-timeout");
+    let mut events = Vec::new();
+    let nsig = match r.below(6) {
+        0 => 0,
+        1 | 2 | 3 => r.range(1, 2),
+        _ => r.range(3, 5),
+    };
+    let mut phases: Vec<&'static str> = Vec::new();
+    for i in 0..nsig {
+        let (trig, phase) = signal_trigger(r, n);
+        let signo = *r.pick(&HANDLED_SIGNALS);
+        let id = 100 + i as u32;
+        let what = if r.chance(1, 4) { EventKind::SignalProcess { signo, id } } else { EventKind::SignalThread { tid: tid_of(r.below(n as u64) as usize), signo, id } };
+        events.push(Event { trig, what });
+        if !phases.contains(&phase) {
+            phases.push(phase);
+        }
+    }
+    if nsig > 0 {
+        phases.sort();
+        tags.push(format!("signals:{}", phases.join("/")));
+    }
+    if stop_fails && n > 1 && r.coin() {
+        for _ in 0..r.range(1, 2) {
+            let ti = r.range(1, n as u64 - 1) as usize;
+            if tid_of(ti) != opts.blamed {
+                let (trig, _) = exit_trigger(r, n);
+                events.push(Event { trig, what: EventKind::ThreadExit { tid: tid_of(ti) } });
+                push_tags(&mut tags, &["exits"]);
+            }
+        }
+    }
+    if r.chance(1, 4) {
+        let (ss, sl) = stack_of(&b, opts.blamed);
+        let exe = &b.modules[0];
+        opts.crash = Some(crash_spec(r, opts.blamed, ss + sl / 2, exe.base + exe.image.text_off + 0x200));
+        tags.push("crash".into());
+    }
+    if r.chance(1, 5) {
+        opts.failspots |= (r.below(32) as u8) & !1;
+    }
+    let mut sc = simple_dump_scenario("C03", seed, "c03-base", b, opts);
+    if r.chance(1, 4) {
+        if let Workload::Dump(p) = &mut sc.workload {
+            p.dests = vec![dest_plan(r, true)];
+            tags.push("dest-faults".into());
+        }
+    }
+    sc.events = events;
+    sc.faults = faults;
+    sc.sched.steps_per_call = r.range(1, 3) as u32;
+    sc.sched.sig_lowest_first = r.coin();
+    sc.tags = tags;
+    sc
+}
+
+/// Fault sweep for C03: one extra scenario per (fallible call of the recorded run, realistic failure).
+pub fn c03_sweep(sc: &Scenario, res: &crate::run::RunResult, limit: usize) -> Vec<(String, Scenario)> {
+    use CallKind as K;
+    let Some(d) = res.dumps.first() else { return Vec::new() };
+    let counts = &d.kernel_after.gt.counts;
+    let mut cands: Vec<(String, Scenario)> = Vec::new();
+    let mut r = Rng::new(sc.seed ^ 0xc03);
+    let tids: Vec<i32> = sc.world.threads.iter().map(|t| t.tid).collect();
+    let with = |label: String, f: &dyn Fn(&mut Scenario)| -> (String, Scenario) {
+        let mut s2 = sc.clone();
+        f(&mut s2);
+        s2.profile = format!("c03-concrete: {}", label);
+        (label, s2)
+    };
+    // state-neutral errno failures of kernel calls
+    let neutral: [(K, &[i32]); 13] = [
+        (K::Open, &[2, 13, 24]),
+        (K::Read, &[5, 3]),
+        (K::Opendir, &[2, 24]),
+        (K::Readdir, &[5]),
+        (K::Statx, &[2]),
+        (K::Stat, &[2]),
+        (K::Readlink, &[2]),
+        (K::Mmap, &[12]),
+        (K::Vmreadv, &[14, 1, 38]),
+        (K::PtraceAttach, &[3, 1]),
+        (K::PtraceGetregset, &[5]),
+        (K::PtracePeekuser, &[5]),
+        (K::Waitpid, &[4]),
+    ];
+    for (kind, errnos) in neutral {
+        let c = counts[kind as usize] as u32;
+        for nth in 0..c {
+            let e = errnos[(nth as usize + sc.seed as usize) % errnos.len()];
+            cands.push(with(format!("errno{}@{:?}#{}", e, kind, nth), &|s| {
+                s.faults.push(FaultRule { trig: Trigger { kind, nth, path: None }, effect: Effect::Errno(e), times: if kind == K::Waitpid { 1 + nth % 3 } else { 1 }, exotic: false });
+            }));
+        }
+    }
+    if counts[K::Kill as usize] > 0 && !sc.faults.iter().any(|f| f.trig.kind == K::Kill) {
+        cands.push(with("errno1@Kill#0".into(), &|s| {
+            s.faults.push(FaultRule { trig: Trigger { kind: K::Kill, nth: 0, path: None }, effect: Effect::Errno(1), times: 1, exotic: false });
+        }));
+    }
+    // the target is killed at this point (every later ptrace call fails the way it really would)
+    for kind in [K::PtraceAttach, K::Waitpid, K::PtraceGetregset, K::PtraceCont, K::PtraceDetach, K::Vmreadv, K::DestWrite, K::Kill, K::Readdir] {
+        let c = counts[kind as usize] as u32;
+        for nth in 0..c {
+            cands.push(with(format!("sigkill@{:?}#{}", kind, nth), &|s| {
+                s.events.push(Event { trig: Trigger { kind, nth, path: None }, what: EventKind::KillProcess });
+            }));
+        }
+    }
+    // a signal arrives at this point
+    for kind in [K::PtraceAttach, K::Waitpid, K::PtraceGetregset, K::PtraceDetach, K::PtraceCont, K::Kill] {
+        let c = counts[kind as usize] as u32;
+        for nth in 0..c {
+            let tid = *r.pick(&tids);
+            let signo = *r.pick(&HANDLED_SIGNALS);
+            cands.push(with(format!("signal@{:?}#{}", kind, nth), &|s| {
+                s.events.push(Event { trig: Trigger { kind, nth, path: None }, what: EventKind::SignalThread { tid, signo, id: 900 + nth } });
+            }));
+        }
+    }
+    // destination failures at every destination call
+    let nops = d.dest.ops.len() as u32;
+    for k in 0..nops {
+        for (name, fx) in [("error", DestFx::Error(28)), ("panic", DestFx::Panic), ("short", DestFx::Short(1)), ("eintr", DestFx::Interrupted)] {
+            let fx2 = fx.clone();
+            cands.push(with(format!("dest-{}@{}", name, k), &move |s| {
+                if let Workload::Dump(p) = &mut s.workload {
+                    p.dests[0].fx.retain(|(o, _)| *o != k);
+                    p.dests[0].fx.push((k, fx2.clone()));
+                    p.dests[0].fx.sort_by_key(|(o, _)| *o);
+                }
+            }));
+        }
+    }
+    if cands.len() > limit {
+        r.shuffle(&mut cands);
+        cands.truncate(limit);
+    }
+    cands
+}
+
+fn hostile_addr(r: &mut Rng, b: &Built) -> u64 {
+    let (ss, sl) = (b.stacks[0].1, b.stacks[0].2);
+    match r.below(14) {
+        0 => 0,
+        1 => 1,
+        2 => 0x1000,
+        3 => u64::MAX,
+        4 => u64::MAX - 7,
+        5 => u64::MAX - 0xfff,
+        6 => u64::MAX - (1 << 20) + r.below(1 << 20),
+        7 => VSYSCALL + r.below(0x1000),
+        8 => ss + sl - 1,       // last byte of a mapping
+        9 => ss + sl,           // first byte after
+        10 => ss - 1,
+        11 => ss + r.below(sl) | 1, // misaligned
+        12 => 0x7fff_ffff_f000 + r.below(0x1000),
+        _ => r.next(),
+    }
+}
+
+fn gen_c02(r: &mut Rng, seed: u64) -> Scenario {
+    let (mut sc, _) = rich_dump(r, "C02", seed, "c02-hostile", true);
+    // rebuild a Built-like view for helpers
+    let stacks: Vec<(i32, u64, u64)> = sc
+        .world
+        .threads
+        .iter()
+        .filter_map(|t| {
+            let sp = t.regs[R_RSP];
+            sc.world.regions.iter().find(|g| sp >= g.start && sp < g.end()).map(|g| (t.tid, g.start, g.len))
+        })
+        .collect();
+    let fake = Built { world: World::default(), modules: Vec::new(), stacks: if stacks.is_empty() { vec![(PID, MAIN_STACK_TOP - 0x2000, 0x2000)] } else { stacks }, heap: (HEAP_BASE, 0x21000), vdso_base: VVAR_BASE + 0x4000, anon_next: ANON_BASE + 0x4000_0000 };
+    let mut tags = sc.tags.clone();
+    let nh = r.range(1, 4);
+    for _ in 0..nh {
+        match r.below(16) {
+            0 | 1 => {
+                // hostile crash context registers
+                let blamed = match &sc.workload { Workload::Dump(p) => p.opts.blamed, _ => PID };
+                let rsp = hostile_addr(r, &fake);
+                let rip = hostile_addr(r, &fake);
+                let cs = crash_spec(r, blamed, rsp, rip);
+                if let Workload::Dump(p) = &mut sc.workload {
+                    p.opts.crash = Some(cs);
+                }
+                push_tags(&mut tags, &["h:crash-regs"]);
+            }
+            2 => {
+                let n = sc.world.threads.len() as u64;
+                let ti = r.below(n) as usize;
+                sc.world.threads[ti].regs[R_RSP] = hostile_addr(r, &fake);
+                if r.coin() {
+                    sc.world.threads[ti].regs[R_RIP] = hostile_addr(r, &fake);
+                }
+                push_tags(&mut tags, &["h:thread-regs"]);
+            }
+            3 => {
+                // program headers of the executable in memory
+                let off = EXE_BASE + 0x40 + r.below(6) * 56 + *r.pick(&[0u64, 8, 16, 32, 40, 48]);
+                sc.world.plants.push((off, *r.pick(&BOUNDARY)));
+                push_tags(&mut tags, &["h:phdr-bytes"]);
+            }
+            4 => {
+                for kv in sc.world.auxv.iter_mut() {
+                    if kv.0 == AT_PHNUM && r.coin() {
+                        kv.1 = *r.pick(&[0u64, 1, 100_000, 1 << 63, u64::MAX / 56, u64::MAX]);
+                    }
+                    if kv.0 == AT_PHDR && r.coin() {
+                        kv.1 = *r.pick(&[0x1000u64, EXE_BASE + 0x3000 - 8, EXE_BASE + 0xfff, u64::MAX - 8, HEAP_BASE + 0x21000 - 56]);
+                    }
+                    if kv.0 == AT_ENTRY && r.chance(1, 3) {
+                        kv.1 = *r.pick(&[0u64, u64::MAX, 1 << 63]);
+                    }
+                    if kv.0 == AT_SYSINFO_EHDR && r.chance(1, 3) {
+                        kv.1 = *r.pick(&[0u64, u64::MAX, HEAP_BASE]);
+                    }
+                }
+                push_tags(&mut tags, &["h:auxv-values"]);
+            }
+            5 => {
+                // linker list: cyclic, self-referential, dangling, bad names
+                let lm0 = HEAP_BASE + 0x40;
+                match r.below(7) {
+                    0 => sc.world.plants.push((lm0 + 24, lm0)),                       // first -> itself
+                    1 => sc.world.plants.push((lm0 + 40 + 24, lm0)),                  // second -> first
+                    2 => sc.world.plants.push((lm0 + 24, 0x1000)),                    // dangling
+                    3 => sc.world.plants.push((lm0 + 8, HEAP_BASE + 0x21000 - 5)),    // name runs off the mapping
+                    4 => sc.world.plants.push((lm0 + 8, 0x2000)),                     // name unmapped
+                    5 => sc.world.plants.push((HEAP_BASE + 8, HEAP_BASE + 0x21000 - 16)), // r_map at mapping end: short link_map read
+                    _ => {
+                        // name with invalid UTF-8
+                        sc.world.plants.push((HEAP_BASE + 0x1800, 0x00ff_fe41_4243_ff80));
+                        sc.world.plants.push((lm0 + 8, HEAP_BASE + 0x1800));
+                    }
+                }
+                push_tags(&mut tags, &["h:link-map"]);
+            }
+            6 => {
+                // DT_DEBUG -> r_debug at odd places; dynamic without terminator
+                let dyn_debug = sc.world.regions.iter().find(|g| g.start >= EXE_BASE && g.perms == "rw-p" && g.name.0 == b"/usr/bin/app").map(|g| g.start);
+                if let Some(d) = dyn_debug {
+                    match r.below(4) {
+                        0 => sc.world.plants.push((d + 2 * 16 + 8, HEAP_BASE + 0x21000 - 8)), // r_debug straddles the end
+                        1 => sc.world.plants.push((d + 2 * 16 + 8, 0)),
+                        2 => {
+                            // no DT_NULL anywhere: tags all non-zero up to the end of the page
+                            for i in 0..256u64 {
+                                sc.world.plants.push((d + i * 16, 0x6000_0000 + i));
+                            }
+                        }
+                        _ => sc.world.plants.push((d + 2 * 16 + 8, u64::MAX - 3)),
+                    }
+                    push_tags(&mut tags, &["h:dynamic"]);
+                }
+            }
+            7 => {
+                let n = sc.world.threads.len() as u64;
+                let ti = r.below(n) as usize;
+                let len = r.below(16) as usize;
+                let mut v = r.bytes(len);
+                for c in v.iter_mut() {
+                    if *c == b'\n' || *c == 0 {
+                        *c = b'?';
+                    }
+                }
+                sc.world.threads[ti].comm = B(v);
+                push_tags(&mut tags, &["h:comm-bytes"]);
+            }
+            8 | 9 => {
+                // mapping names
+                let names: [&[u8]; 16] = [
+                    b"/usr/lib/x.so.1.2.3\xc3\xa94",
+                    b"/usr/lib/lib\xe6\xbc\xa2.so.1.\xe6\xbc\xa2",
+                    b"/usr/lib/liba.so.",
+                    b"/usr/lib/liba.so..",
+                    b"/usr/lib/liba.so.1.2.3.4.5.6",
+                    b"/usr/lib/liba.so.99999999999999999999",
+                    b"/usr/lib/liba.so.1.2.\xc3\xa9",
+                    b"/usr/lib/liba.so.1.2.3-\xe2\x82\xac9",
+                    b"/SYSVab",
+                    b"/SYSV00000000 (deleted)",
+                    b"/SYSV",
+                    b"/dev/shm/sim-segment",
+                    b"/dev/zero (deleted)",
+                    b"/dev/dri/renderD128",
+                    b"/tmp/\xff\xfe name with  spaces ",
+                    b"[anon:scudo:primary]",
+                ];
+                let nm = *r.pick(&names);
+                // rename one library (all its lines) or add a fresh mapping with that name
+                if r.coin() {
+                    let libs: Vec<B> = sc.world.regions.iter().filter(|g| g.name.0.starts_with(b"/usr/lib/libsim")).map(|g| g.name.clone()).collect();
+                    if let Some(old) = libs.first().cloned() {
+                        for g in sc.world.regions.iter_mut() {
+                            if g.name == old {
+                                g.name = B(nm.to_vec());
+                            }
+                        }
+                        if r.coin() {
+                            for f in sc.world.files.iter_mut() {
+                                if f.path == old {
+                                    f.path = B(nm.to_vec());
+                                }
+                            }
+                        }
+                    }
+                } else {
+                    let start = ANON_BASE + 0x5000_0000 + r.below(64) * 0x10_0000;
+                    if !sc.world.regions.iter().any(|g| g.start < start + 0x3000 && start < g.end()) {
+                        sc.world.regions.push(RegionSpec { start, len: 0x3000, perms: (*r.pick(&["r-xp", "rw-s", "r--p"])).into(), offset: *r.pick(&[0u64, 0x1000]), inode: 777, name: B(nm.to_vec()), deleted: false, content: if r.coin() { Content::Pattern(r.next()) } else { Content::Zero } });
+                        sc.world.regions.sort_by_key(|g| g.start);
+                        if nm.starts_with(b"/dev/") && r.coin() {
+                            sc.world.files.push(FileSpec { path: B(nm.to_vec()), content: B(r.bytes(0x3000)), mode: 0o100666 });
+                        }
+                    }
+                }
+                push_tags(&mut tags, &["h:map-names"]);
+            }
+            10 => {
+                sc.world.status_extra = B(match r.below(5) {
+                    0 => b"x\n".to_vec(),
+                    1 => b"Tgid:\tabc\n".to_vec(),
+                    2 => b"PPid:\t\n".to_vec(),
+                    3 => vec![0xff, 0xfe, b'\n', b'T', b'g', b'\n'],
+                    _ => b"Tgid:\t99999999999999999999\n".to_vec(),
+                });
+                push_tags(&mut tags, &["h:status-lines"]);
+            }
+            11 | 12 => {
+                // syscall faults, realistic and exotic
+                let kinds = [CallKind::Open, CallKind::Read, CallKind::Pread, CallKind::Vmreadv, CallKind::Opendir, CallKind::Readdir, CallKind::Statx, CallKind::Stat, CallKind::Readlink, CallKind::Mmap, CallKind::PtraceAttach, CallKind::PtraceGetregset, CallKind::PtraceGetregs, CallKind::PtracePeekuser, CallKind::PtraceDetach, CallKind::Waitpid, CallKind::Kill, CallKind::Uname, CallKind::Nanosleep];
+                let kind = *r.pick(&kinds);
+                let effect = match r.below(5) {
+                    0 if matches!(kind, CallKind::Read | CallKind::Pread | CallKind::Vmreadv) => Effect::Short(*r.pick(&[1u64, 3, 7, 8, 15, 100])),
+                    _ => Effect::Errno(*r.pick(&[1, 2, 3, 4, 5, 9, 10, 12, 13, 14, 22, 24, 28, 38])),
+                };
+                sc.faults.push(FaultRule { trig: Trigger { kind, nth: r.below(30) as u32, path: None }, effect, times: *r.pick(&[1u32, 1, 2, 1000]), exotic: true });
+                push_tags(&mut tags, &["h:syscall-faults"]);
+            }
+            13 => {
+                if let Workload::Dump(p) = &mut sc.workload {
+                    match r.below(4) {
+                        0 => p.opts.app_memory.push((hostile_addr(r, &fake), *r.pick(&[0u64, 1, 8, 4096]))),
+                        1 => p.opts.principal = Some(hostile_addr(r, &fake)),
+                        2 => p.opts.user_mappings.push(UserMapSpec { start: *r.pick(&[0u64, u64::MAX - 10, 1 << 63]), size: *r.pick(&[0u64, 100, u64::MAX]), offset: 0, perms: "r-xp".into(), name: if r.coin() { None } else { Some(B(vec![0xff, b'/', b'x'])) }, identifier: B({ let n = r.pick_copy(&[0usize, 1, 16, 64]); r.bytes(n) }) }),
+                        _ => p.opts.direct_auxv = Some(vec![*r.pick(&[0u64, 1, 1 << 40, u64::MAX]), hostile_addr(r, &fake), hostile_addr(r, &fake), hostile_addr(r, &fake)]),
+                    }
+                }
+                push_tags(&mut tags, &["h:caller-config"]);
+            }
+            14 => {
+                sc.world.auxv_cut = r.below(40);
+                sc.world.auxv_terminated = r.coin();
+                push_tags(&mut tags, &["h:auxv-file"]);
+            }
+            _ => {
+                // events: process killed or threads exiting at arbitrary calls
+                let kind = *r.pick(&[CallKind::Read, CallKind::PtraceAttach, CallKind::Waitpid, CallKind::Vmreadv, CallKind::PtraceGetregset, CallKind::Open]);
+                sc.events.push(Event { trig: Trigger { kind, nth: r.below(40) as u32, path: None }, what: EventKind::KillProcess });
+                push_tags(&mut tags, &["h:killed"]);
+            }
+        }
+    }
+    sc.tags = tags;
+    sc
+}
+
 pub fn generate(prop: &str, verif_seed: u64, idx: u64) -> Scenario {
     let seed = derive_seed(verif_seed, prop, idx);
     let mut r = Rng::new(seed);
@@ -1604,6 +2047,8 @@ pub fn generate(prop: &str, verif_seed: u64, idx: u64) -> Scenario {
             let benign = idx % 2 == 1;
             rich_dump(&mut r, prop, seed, if benign { "c01-benign-faults" } else { "c01-clean" }, benign).0
         }
+        "C02" => gen_c02(&mut r, seed),
+        "C03" => gen_c03(&mut r, seed),
         "C04" => gen_c04(&mut r, seed),
         "C05" => gen_c05(&mut r, seed),
         "C06" => gen_c06(&mut r, seed, idx),
